@@ -325,28 +325,62 @@ func Stage(obs *Obs, class, at string, f func()) (ok bool) {
 // ---------------------------------------------------------------------------
 // requests
 
-// DefaultReqs derives a few requests from the document under test (paths,
-// methods and header names that occur in it) plus fixed ones.
+// DefaultReqs derives the requests from the document under test (near-miss
+// construction): every string of the spec that may be matched against, cut
+// from or compared with a part of a request (paths and path prefixes,
+// trimPrefix/addPrefix/replace, url rules, header names and values, methods,
+// hosts, cookie names) yields requests whose path / header / method / host
+// EQUALS the configured value, is a strict prefix of it, extends it by one
+// character, is "/" or empty-ish; bodies empty and non-empty, with and without
+// a query; with and without a response already in the context.
 func DefaultReqs(g *Gen, kind string, doc interface{}) []Req {
 	if MQTTKinds[kind] {
-		return []Req{
+		reqs := []Req{
 			{MQTT: "connect", Client: "a", Topic: ""},
 			{MQTT: "publish", Client: "a", Topic: "a/b"},
 			{MQTT: "publish", Client: "c1", Topic: "b"},
 			{MQTT: "subscribe", Client: "c1", Topic: "t/+"},
+			{MQTT: "publish", Client: "", Topic: ""},
+			{MQTT: "publish", Client: "a", Topic: "/"},
+		}
+		// configured strings as client ids and topics (exact, extended, as one level of a longer topic)
+		seenS := map[string]bool{}
+		walkStrings(doc, func(s string) {
+			if seenS[s] || s == "" || len(s) > 40 || len(reqs) > 40 {
+				return
+			}
+			seenS[s] = true
+			reqs = append(reqs, Req{MQTT: "publish", Client: s, Topic: s}, Req{MQTT: "connect", Client: s},
+				Req{MQTT: "publish", Client: "a", Topic: s + "/x"}, Req{MQTT: "publish", Client: "a", Topic: "x/" + s + "/y/z"})
+		})
+		return reqs
+	}
+	var paths, methods, hosts, names []string
+	var hdrs [][2]string
+	seen := map[string]bool{}
+	addPath := func(p string) {
+		if !seen["p"+p] && len(p) < 60 {
+			seen["p"+p] = true
+			paths = append(paths, p)
 		}
 	}
-	var paths, methods []string
-	var hdrs [][2]string
 	var walk func(key string, x interface{})
 	walk = func(key string, x interface{}) {
 		switch v := x.(type) {
 		case string:
-			if strings.HasPrefix(v, "/") && len(v) < 40 {
-				paths = append(paths, v)
+			lk := strings.ToLower(key)
+			if strings.HasPrefix(v, "/") {
+				addPath(v)
 			}
-			if key == "methods" && formatOK("httpmethod", v) {
-				methods = append(methods, v)
+			switch {
+			case lk == "methods" || lk == "method":
+				if formatOK("httpmethod", v) {
+					methods = append(methods, v)
+				}
+			case lk == "host" || lk == "hostregexp":
+				hosts = append(hosts, v)
+			case strings.Contains(lk, "key") || strings.Contains(lk, "cookie") || lk == "del" || strings.Contains(lk, "header"):
+				names = append(names, v)
 			}
 		case []interface{}:
 			for _, e := range v {
@@ -359,7 +393,8 @@ func DefaultReqs(g *Gen, kind string, doc interface{}) []Req {
 			}
 			sort.Strings(ks)
 			for _, k := range ks {
-				if key == "headers" || key == "set" || key == "add" {
+				lkey := strings.ToLower(key)
+				if lkey == "headers" || lkey == "set" || lkey == "add" || lkey == "mockheaders" {
 					val := "a"
 					switch e := v[k].(type) {
 					case string:
@@ -382,25 +417,68 @@ func DefaultReqs(g *Gen, kind string, doc interface{}) []Req {
 		}
 	}
 	walk("", doc)
+	okName := func(k string) bool { return k != "" && !strings.ContainsAny(k, " \n:\r\t") && len(k) < 40 }
 	reqs := []Req{
 		{Method: "GET", Path: "/", Resp: 0},
 		{Method: "POST", Path: "/a/b", Headers: [][2]string{{"X-Test", "a"}, {"Content-Type", "text/plain"}, {"Origin", "http://a"}}, Body: "hello", Resp: 1},
-		{Method: "GET", Path: "/api/v1/x", Headers: [][2]string{{"Authorization", "Bearer abc"}, {"Accept-Encoding", "gzip"}, {"X-Real-Ip", "10.0.0.8"}}, Resp: 2},
+		{Method: "GET", Path: "/api/v1/x?q=1&r=%2F", Headers: [][2]string{{"Authorization", "Bearer abc"}, {"Accept-Encoding", "gzip"}, {"X-Real-Ip", "10.0.0.8"}}, Resp: 2},
 		{Method: "OPTIONS", Path: "/a", Headers: [][2]string{{"Origin", "http://a"}, {"Access-Control-Request-Method", "GET"}}, Resp: 1},
+		{Method: "GET", Path: "", Resp: 0},
+		{Method: "HEAD", Path: "/", Headers: [][2]string{{"Cookie", "a=b"}}, Resp: 1},
 	}
-	d := Req{Method: "GET", Path: "/x", Headers: hdrs, Resp: 1}
+	m0 := "GET"
+	if len(methods) > 0 {
+		m0 = methods[g.R.Intn(len(methods))]
+	}
+	// all configured headers at once, on a configured path
+	d := Req{Method: m0, Path: "/x", Headers: hdrs, Resp: 1}
 	if len(paths) > 0 {
 		d.Path = paths[g.R.Intn(len(paths))]
 	}
-	if len(methods) > 0 {
-		d.Method = methods[g.R.Intn(len(methods))]
-	}
 	reqs = append(reqs, d)
+	// every configured path-like string: exact, strict prefix, one character more, below it, with a query
 	for _, p := range paths {
-		if len(reqs) >= 8 {
+		if len(reqs) > 60 {
 			break
 		}
-		reqs = append(reqs, Req{Method: "GET", Path: p + "x", Resp: 0})
+		reqs = append(reqs,
+			Req{Method: m0, Path: p, Headers: hdrs, Resp: 0},
+			Req{Method: "GET", Path: p + "x", Resp: 1},
+			Req{Method: "POST", Path: p + "/sub?q=1", Body: "hello", Resp: 0})
+		if len(p) > 1 {
+			reqs = append(reqs, Req{Method: "GET", Path: p[:len(p)-1], Resp: 0})
+		}
+	}
+	// every configured method on "/" and on a configured path
+	for _, m := range methods {
+		if len(reqs) > 70 {
+			break
+		}
+		reqs = append(reqs, Req{Method: m, Path: d.Path, Body: "hello", Resp: 0})
+	}
+	// configured header / cookie names: present with a configured value, present empty, as a cookie
+	for _, n := range names {
+		if len(reqs) > 80 || !okName(n) {
+			continue
+		}
+		reqs = append(reqs,
+			Req{Method: "GET", Path: d.Path, Headers: [][2]string{{n, "a"}, {"Cookie", n + "=a"}}, Resp: 1},
+			Req{Method: "GET", Path: "/", Headers: [][2]string{{n, ""}}, Resp: 0})
+	}
+	// each configured header alone (exact value), and with the value extended
+	for _, h := range hdrs {
+		if len(reqs) > 90 {
+			break
+		}
+		reqs = append(reqs, Req{Method: "GET", Path: d.Path, Headers: [][2]string{h}, Resp: 0},
+			Req{Method: "GET", Path: "/", Headers: [][2]string{{h[0], h[1] + "x"}}, Resp: 1})
+	}
+	// configured hosts
+	for _, h := range hosts {
+		if len(reqs) > 96 || !okName(h) {
+			continue
+		}
+		reqs = append(reqs, Req{Method: "GET", Path: d.Path, Headers: [][2]string{{"Host", h}}, Resp: 0})
 	}
 	return reqs
 }
@@ -420,6 +498,10 @@ func NewHTTPContext(rq Req) *context.Context {
 		return nil
 	}
 	for _, h := range rq.Headers {
+		if h[0] == "Host" {
+			stdr.Host = h[1]
+			continue
+		}
 		stdr.Header.Add(h[0], h[1])
 	}
 	stdr.RemoteAddr = "10.0.0.7:12345"
